@@ -56,7 +56,10 @@ Rng(k, a, b, form) == [k |-> k, a |-> a, b |-> b, form |-> form, bare |-> (form 
 TailCmds == << CDirect(<<SRun(-1)>>), CDirect(<<Rng("list", 0, 65529, "all")>>),
            CDirect(<<SPrint(<<PE(LI(1))>>)>>), CDirect(<<SLet(A, LI(2)), SPrint(<<PE(A)>>)>>),
            CDirect(<<SGoto(L(1))>>), CDirect(<<SGosub(L(2))>>), CDirect(<<SRun(L(3))>>), CDirect(<<SCont>>),
-           CDirect(<<SOnGoto(A, <<L(1), L(2)>>)>>), CDirect(<<SPrint(<<PE(LI(3))>>), SGoto(L(1))>>) >>
+           CDirect(<<SOnGoto(A, <<L(1), L(2)>>)>>), CDirect(<<SPrint(<<PE(LI(3))>>), SGoto(L(1))>>),
+           \* direct statements that loop without entering the program still work
+           CDirect(<<SLet(A, LI(0)), SWhile(Bin("lt", A, LI(3))), SLet(A, Bin("add", A, LI(1))), SWend, SPrint(<<PE(A)>>)>>),
+           CDirect(<<SWhile(Bin("lt", A, LI(5))), SLet(A, Bin("add", A, LI(1))), SWend, SFor(Var("I","I",""), LI(1), LI(2)), SNext(<<>>), SPrint(<<PE(A)>>)>>) >>
 
 RECURSIVE Feed(_, _, _)
 Feed(mm, cs, i) == IF i > Len(cs) THEN mm ELSE Feed(Do(mm, cs[i], Fuel), cs, i + 1)
@@ -85,7 +88,7 @@ DiagInside ==
 \* no program statement executes: nothing but diagnostics and the prompt is printed, and the
 \* store changes only through the direct statement A=2
 OnlyReady(resp) == \A i \in 1..Len(resp) : resp[i].k = "out" => resp[i].s \in {ReadyText, <<10>> \o ReadyText}
-NoRun == [][ (n >= 0 /\ n' = n + 1 /\ n + 1 \notin {2, 3, 4}) =>
+NoRun == [][ (n >= 0 /\ n' = n + 1 /\ n + 1 \notin {2, 3, 4, 11, 12}) =>
                \* (RUN itself clears the variables before the jump is refused)
                (OnlyReady(m'.resp) \/ n + 1 = 10) /\ (m'.vars = m.vars \/ m'.vars = EmptyFn) ]_vars
 \* PRINT 3:GOTO n prints 3 and is then refused
